@@ -9,6 +9,7 @@ import (
 	"net/http"
 	"net/http/httptest"
 	"os"
+	"runtime"
 	"sort"
 	"strings"
 	"sync"
@@ -290,6 +291,15 @@ func RunRigS(t *testing.T, plan *Plan) {
 	})
 }
 
+// goid: the id of the calling goroutine (parsed from the stack header; used only to tell retry loops apart).
+func goid() int {
+	var buf [64]byte
+	n := runtime.Stack(buf[:], false)
+	id := 0
+	fmt.Sscanf(strings.TrimPrefix(string(buf[:n]), "goroutine "), "%d", &id)
+	return id
+}
+
 type rngReader struct{ r *Rng }
 
 func (x *rngReader) Read(p []byte) (int, error) {
@@ -444,7 +454,7 @@ func (r *RigS) build() {
 		w.OnReject = func(channel string, names []string) { r.onReject(tgtIdx, channel, names) }
 		w.OnAck = func(channel string) {
 			r.mu.Lock()
-			delete(r.rejCount, fmt.Sprintf("%d/%s", tgtIdx, channel))
+			delete(r.rejCount, fmt.Sprintf("%d/%s/g%d", tgtIdx, channel, goid()))
 			r.mu.Unlock()
 		}
 		w.OnAckData = func(channel string, endSeq int, names []string) { r.onAckData(tgtIdx, channel, endSeq, names) }
@@ -908,7 +918,9 @@ func (r *RigS) onReject(tgt int, channel string, names []string) {
 	if r.rejCount == nil {
 		r.rejCount = map[string]int{}
 	}
-	k := fmt.Sprintf("%d/%s", tgt, channel)
+	// (counted per calling goroutine: the attempts of one write are made by one goroutine, and after a pause / resume the
+	// write loop of the earlier replication entity may still be retrying beside the new one)
+	k := fmt.Sprintf("%d/%s/g%d", tgt, channel, goid())
 	r.rejCount[k]++
 	n := r.rejCount[k]
 	r.mu.Unlock()
